@@ -445,7 +445,8 @@ def shape(v):
 REASON_RE = re.compile(r"^(No value for|No link for|Missing data for|No record for root) ?(.*?)(?: on root (.*?))?(?:\. Link is .*)?$", re.S)
 
 
-def classify_missing(ev):
+def classify_missing(ev, schema=None):
+    """(kind, cause, key): cause names the mechanism, not the case."""
     reasons = ev.get("reasons") or []
     inner = reasons[-1] if reasons else ""
     m = REASON_RE.match(inner)
@@ -453,17 +454,26 @@ def classify_missing(ev):
     key = (m.group(2) if m else "") or ""
     fname = key.split("____")[0]
     rk = ev.get("recordKeys") or []
+    link = ev.get("recordLink") or {}
+    same_field = [x for x in rk if x == fname or x.startswith(fname + "____")]
+    tdef = schema.types.get(link.get("__typename")) if schema is not None else None
+    path_keyed = bool(re.match(r"^[A-Za-z_][A-Za-z0-9_]*:.*\.", str(link.get("__link"))))
     if kind == "no-record":
         cause = "record-absent"
-    elif any(x == fname or x.startswith(fname + "____") for x in rk):
-        cause = "same-field-stored-under-other-arguments"
+    elif path_keyed and tdef is not None and "id" in tdef.get("fields", {}) and "id" not in rk:
+        # the record was written from a position whose selection did not include id (abstract parent type without id),
+        # and replaced the link written by a position that did
+        cause = "link-overwritten-by-path-keyed-record-of-a-type-with-id"
+    elif same_field:
+        if "___null" in key and not any("___null" in x for x in same_field):
+            cause = "argument-read-as-null-but-stored-with-a-value"
+        elif "{" in key:
+            cause = "object-argument-stringified-differently"
+        else:
+            cause = "same-field-stored-under-other-arguments"
     else:
         cause = "field-absent-from-record"
-    through = []
-    for r_ in reasons[:-1]:
-        if r_.startswith("Missing data for"):
-            through.append("nested")
-    return kind, cause, ("has-arguments" if "____" in key else "no-arguments"), key
+    return kind, cause, key
 
 
 def analyze_c10(c, spec):
@@ -507,9 +517,9 @@ def analyze_c10(c, spec):
                 stats["event:%s:%s" % (ev["kind"], ev.get("response", ""))] += 1
             missing = [ev for ev in rd["events"] if ev["kind"] == "DoneReading" and ev.get("response") == "MissingData"]
             if missing:
-                kind, cause, hasargs, skey = classify_missing(missing[0])
+                kind, cause, skey = classify_missing(missing[0], rt["schema"])
                 wit["events"] = missing[:2]
-                out["violations"].append({"rule": "missing-data", "signature": f"C10/MissingData/{kind}/{cause}/{hasargs}",
+                out["violations"].append({"rule": "missing-data", "signature": f"C10/MissingData/{kind}/{cause}",
                                           "what": f"{c.cid} {key}: reading after normalizing a conforming response reports "
                                                   f"MissingData: {' <- '.join(missing[0]['reasons'][-2:])[:300]}", "witness": wit})
                 stats["reads_missing_data"] += 1
